@@ -1190,6 +1190,24 @@ impl FdHandle {
         rt::note(&prev_note);
         check_result(&self.rec, self.op, &self.name, self.token, r);
     }
+    /// polls once with a throw-away waker (as a task that then hands the future to another task would), then awaits
+    /// with the real one: the task that awaits last must be the one that is woken
+    pub fn wait_swapped(mut self) {
+        let mut f = Box::pin(self.fut.take().unwrap());
+        let (w, _c) = counting_waker();
+        let mut cx = Context::from_waker(&w);
+        let first = f.as_mut().poll(&mut cx);
+        let prev_note = rt::note(&format!("in:await-fd(swapped) {}", self.name));
+        let r = match first {
+            Poll::Ready(r) => r,
+            Poll::Pending => {
+                vthread::yield_now();
+                block_on(f)
+            }
+        };
+        rt::note(&prev_note);
+        check_result(&self.rec, self.op, &self.name, self.token, r);
+    }
     pub fn sync(mut self) {
         let f = self.fut.take().unwrap();
         let prev_note = rt::note(&format!("in:fd.sync {}", self.name));
